@@ -437,6 +437,31 @@ fn c02(ctx: &BoardCtx, p: &Pos, fen: &str, b: &mut Bitboard) {
             }
         }
     }
+    // the capture/promotion generator emits its own Move values (the quiescence search makes
+    // them): their successors must be the rules' successors too
+    let nonq = b.generate_pseudo_legal_non_quiescent_moves();
+    for sm in nonq {
+        let sk = mkey_sub(&sm);
+        if let Some(rm) = ref_legal.iter().find(|m| mkey_ref(m) == sk) {
+            let succ = p.make(rm);
+            b.make(sm);
+            let got = lite_to_pos(&lite(b));
+            if got != succ {
+                let expected = succ.to_fen();
+                let actual = got.to_fen();
+                let d = fen_field_diff(&expected, &actual);
+                ctx.viol(format!("successor_of_capture_generator_move:{}:{}", d.join("+"), class_of(rm)), fen, json!({"move": rm.uci(), "expected": expected, "actual": actual, "generator": "generate_pseudo_legal_non_quiescent_moves"}));
+            }
+            b.unmake(sm);
+            if lite(b) != before_lite {
+                match board_from_pos(p) {
+                    Ok(nb) => *b = nb,
+                    Err(_) => return,
+                }
+            }
+            *local.entry("capture_generator_moves_made").or_insert(0) += 1;
+        }
+    }
     ctx.transitions.fetch_add(ref_legal.len() as u64, std::sync::atomic::Ordering::Relaxed);
     ctx.counters.add_all(&local);
 }
